@@ -245,10 +245,22 @@ def preConsistent (I : InstIn) : Bool :=
         withinD I.top t (substituteType b I.pre)
     | _, _ => true
 
-/-- a later pre-assigned parameter whose bound chain reaches `p` may overwrite `p`'s argument
-    (`update_type_var_bound_rec`) -/
+/-- a pre-assigned parameter `q` whose bound chain reaches `p` may overwrite `p`'s argument
+    (`update_type_var_bound_rec`: `if not t.is_subtype(current_t): type_var_map[bound] = t`) — but
+    only when `q`'s request is not already below `p`'s own request in the code's own subtype test
+    (`isSubtype`, the model of `Type.is_subtype`): a request for `p` that the requests below it
+    respect is consistent with the bounds and must be kept.  A projection requested for `q` is
+    rewritten before the test (`t = t.bound`, `tp.Nothing`), so the exemption stays unconditional
+    for it, as it does when `p` itself carries no request. -/
 def overridable (I : InstIn) (p : Ty) : Bool :=
-  I.params.any fun q => (I.pre.get q).isSome && memBeq p (boundChain q)
+  I.params.any fun q =>
+    match I.pre.get q with
+    | none => false
+    | some tq =>
+      memBeq p (boundChain q) &&
+      (match I.pre.get p with
+       | some tp => tq.isWild || isSubtype tq tp != .yes
+       | none => true)
 
 /-- is the projection `wild v _` permitted at parameter `p` (`others` = the later parameters)? -/
 def projAllowed (I : InstIn) (p : Ty) (others : List Ty) (v : Nat) : Bool :=
